@@ -124,6 +124,41 @@ def gen_samples(seed, n):
     return out
 
 
+def cospherical_samples(seed, n):
+    """signed permutations of (p,q,s) around a centre lie on one sphere; the query point is on it or one grid unit off"""
+    rng = random.Random(seed)
+    out = []
+    while len(out) < n:
+        bits = rng.choice((6, 20, 40, 50))
+        p, q, s = (rng.randrange(1, 2 ** bits) for _ in range(3))
+        m = max(p, q, s)
+        c = [rng.randrange(m + 2, R52 - m - 2) for _ in range(3)]
+        pts = []
+        for perm in itertools.permutations((p, q, s)):
+            for sg in itertools.product((1, -1), repeat=3):
+                pts.append([c[k] + sg[k] * perm[k] for k in range(3)])
+        pts = [list(x) for x in {tuple(x) for x in pts}]
+        if len(pts) < 5:
+            continue
+        pick = rng.sample(pts, 5)
+        if rng.random() < 0.6:
+            pick[4][rng.randrange(3)] += rng.choice((-1, 1))
+        out.append(dict(zip(NAMES, pick)))
+    return out
+
+
+def native_vs_reference(seed, n):
+    """native function vs the exact reference on adversarial samples (used when the encoding cannot be built)"""
+    samples = gen_samples(seed + 5, n // 2) + cospherical_samples(seed + 6, n // 2)
+    nat = native_signs(samples)
+    bad = []
+    for smp, s in zip(samples, nat):
+        # orientation-independent statement: the predicate must equal the sign of the lifted determinant
+        if s is None or s != exact_ref_sign(smp):
+            bad.append(smp)
+    return bad
+
+
 def eval_term(term, P, pts):
     subs = [(P[nm][j], z3.IntVal(pts[nm][j])) for nm in NAMES for j in range(3)]
     v = z3.simplify(z3.substitute(to_z3(term), *subs))
@@ -180,7 +215,7 @@ def check_backend(run, backend, prefix, thorough=False):
     run.prove('%s.iii paths cover every D (given the asserts of (i))' % prefix, rng_h, z3.Not(z3.Or(pcs)), timeout=30)
 
     # translator validation: encoding vs the real function on concrete samples (ibig build = the replay binary)
-    samples = gen_samples(run.seed + 17, 200 if not thorough else 1000)
+    samples = gen_samples(run.seed + 17, 200 if not thorough else 1000) + cospherical_samples(run.seed + 18, 100 if not thorough else 1000)
     enc_signs = [py_sign(eval_term(code_det, P, s)) for s in samples]
     if backend == 'ibig':
         nat = native_signs(samples)
